@@ -708,6 +708,11 @@ def lf_ops(reduced=False):
     for a in menu:
         for b in menu:
             ops.append(["postponed", a, b])
+    # a batch that fails part way through its end-of-batch recalculation (a good rule plus an alignment the model cannot
+    # convert), after which the user sets a valid alignment again
+    for k in ((1,) if reduced else (0, 1)):
+        ops.append(["failed_batch", menu[0], k])
+        ops.append(["failed_batch", menu[1], k])
     return ops
 
 
@@ -732,6 +737,8 @@ class LfSystem:
             self._alns = [make_aligned_seqs(ALN3, moltype="dna"), make_aligned_seqs(ALN3B, moltype="dna")]
             self._tree = make_tree(TREE3)
             self._sm = get_model("HKY85")
+            # same names, but characters a nucleotide model cannot convert
+            self._bad = make_aligned_seqs({k: "EFL" + v[3:] for k, v in ALN3.items()}, moltype="protein")
         return self._sm, self._tree, self._alns
 
     def fresh(self):
@@ -824,6 +831,16 @@ class LfSystem:
                     with lf.updates_postponed():
                         self._apply_one(lf, op[1])
                         self._apply_one(lf, op[2])
+                elif op[0] == "failed_batch":
+                    try:
+                        with lf.updates_postponed():
+                            self._apply_one(lf, op[1])
+                            lf.set_alignment(self._bad)
+                    except Exception:  # noqa: BLE001 - the expected failure of the batch
+                        pass
+                    else:
+                        return ("raised", "NoError", "an alignment the model cannot convert was accepted")
+                    self._apply_one(lf, ["aln", op[2]])
                 else:
                     self._apply_one(lf, op)
             return ("ok",)
@@ -895,6 +912,9 @@ class LfSystem:
         if op[0] == "postponed":
             self._model_one(info, op[1], lf)
             self._model_one(info, op[2], lf)
+        elif op[0] == "failed_batch":
+            self._model_one(info, op[1], lf)
+            self._model_one(info, ["aln", op[2]], lf)
         else:
             self._model_one(info, op, lf)
         return info
@@ -954,7 +974,7 @@ class LfSystem:
         if op is None:
             return "initial state"
         return {"rule": "set_param_rule", "mprobs": "set_motif_probs", "aln": "set_alignment", "optimise": "optimise",
-                "postponed": "updates_postponed block"}[op[0]]
+                "postponed": "updates_postponed block", "failed_batch": "updates_postponed block that failed, then a valid alignment"}[op[0]]
 
     def check_transition(self, lf, info, op, obs, info2, hist_fn, acc):
         if obs[0] != "ok":
